@@ -10,7 +10,7 @@ SHARD = 10
 CONFIRM = True
 HARNESS_ENV = {"VERIF_CASE_TIMEOUT_S": "30"}
 RULE = ("cases = a real grafanaNet route (route.NewGrafanaNet) against a local HTTP server that answers each POST to /metrics from a scripted fault "
-        "sequence (2xx, 400, 500, hang past the client timeout, connection reset) and decodes every body (snappy + msgpack MetricDataArray); "
+        "sequence (2xx, 400, 500, hang past the client timeout, connection reset, a 503 or a 200 whose announced body is cut off) and decodes every body (snappy + msgpack MetricDataArray); "
         "concurrency 1-4, flushMaxNum 1-50, flushMaxWait 5-50 ms, buffer sizes from tiny to ample, blocking on/off, 20-200 lines over 1-12 "
         "series with unique values; half of the runs end with Shutdown (8 s deadline). The acceptor gn_ok decides: Shutdown returned; acknowledged "
         "points = sent minus the counted drops, none invented or repeated; per series in receive order; a body never mixes shards "
@@ -36,7 +36,7 @@ def gen(rng, tier):
             nm = rng.choice(names)
             ts[nm] = ts.get(nm, 1000) + 10
             lines.append("%s %d %d" % (nm, k * 100000 + i, ts[nm]))
-        faults = [rng.choice(["ok", "ok", "500", "400", "reset", "hang"]) for _ in range(rng.choice([0, 3, 8, 15]))]
+        faults = [rng.choice(["ok", "ok", "500", "400", "reset", "hang", "503trunc", "200trunc"]) for _ in range(rng.choice([0, 3, 8, 15]))]
         if sum(1 for f in faults if f == "hang") > 3:
             faults = [f if f != "hang" else "500" for f in faults]
         cases.append({"concurrency": conc, "bufsize": rng.choice([conc, 2 * conc, 10 * conc, 1000]) if not blocking else rng.choice([2 * conc, 1000]),
@@ -51,7 +51,7 @@ def pt(p):
 
 def to_coq(case, obs):
     sent = clist([pt(l.split(" ")) for l in case["lines"]], "point")
-    posts = clist([ctuple(clist([pt(p) for p in (po["points"] or [])], "point"), cbool(po["outcome"] == "ok")) for po in (obs["posts"] or [])],
+    posts = clist([ctuple(clist([pt(p) for p in (po["points"] or [])], "point"), cbool(po["outcome"] in ("ok", "200trunc"))) for po in (obs["posts"] or [])],
                   "(list point * bool)")
     return ("{| g_conc := %s; g_sent := %s; g_drops := %s; g_posts := %s; g_shutdown := %s; g_returned := %s |}"
             % (cN(case["concurrency"]), sent, cnat(obs["drops"]), posts, cbool(case["shutdown"]), cbool(obs["shutdown_returned"])))
@@ -59,7 +59,7 @@ def to_coq(case, obs):
 
 def nontrivial_key(case, obs):
     import json
-    if obs["drops"] or any(p["outcome"] != "ok" for p in (obs["posts"] or [])):
+    if obs["drops"] or any(p["outcome"] not in ("ok", "200trunc") for p in (obs["posts"] or [])):
         return json.dumps([case["concurrency"], case["faults"], case["lines"][:3], len(case["lines"])])
     return None
 
@@ -71,7 +71,7 @@ def sample(case, obs):
 
 
 def coverage_extra(cases, obs):
-    return {"posts_observed": sum(len(o["posts"] or []) for o in obs), "failed_posts": sum(1 for o in obs for p in (o["posts"] or []) if p["outcome"] != "ok"),
+    return {"posts_observed": sum(len(o["posts"] or []) for o in obs), "failed_posts": sum(1 for o in obs for p in (o["posts"] or []) if p["outcome"] not in ("ok", "200trunc")),
             "lines_dropped_and_counted": sum(o["drops"] for o in obs), "max_dispatch_ms": max([o["max_dispatch_ms"] for o in obs] or [0])}
 
 
